@@ -46,6 +46,29 @@ def base_formulas(ck):
     F = cnfgen.CNF([[1], [-1, 2]])
     del F.header["description"]
     out.append(("nodesc", F))
+    if not ck.quick:
+        rng = ck.rng
+        fams = [("tseitin", lambda: cnfgen.TseitinFormula(gen.mk_graph(4, [[1, 2], [2, 3], [3, 4], [1, 4]]))),
+                ("kcolor", lambda: cnfgen.GraphColoringFormula(gen.mk_graph(3, [[1, 2], [2, 3]]), 2)),
+                ("peb", lambda: cnfgen.PebblingFormula(gen.mk_digraph(3, [[1, 3], [2, 3]]))),
+                ("rphp", lambda: cnfgen.RelativizedPigeonholePrinciple(2, 2, 1)),
+                ("randk", lambda: cnfgen.RandomKCNF(3, 5, 7, seed=5)),
+                ("count", lambda: cnfgen.CountingPrinciple(4, 2)),
+                ("bphp", lambda: cnfgen.BinaryPigeonholePrinciple(3, 2))]
+        for name, fn in fams:
+            out.append((name, fn()))
+        for t in range(12):
+            F = cnfgen.CNF(description="random formula %d with groups" % t)
+            F.new_block(rng.randint(1, 3), rng.randint(1, 2), label="b%d_{{{{{{}},{{}}}}}}" % t)
+            if t % 2:
+                F.new_variable("Z%d" % t)
+            F.update_variable_number(F.number_of_variables() + rng.randint(0, 2))
+            nv = F.number_of_variables()
+            for _ in range(rng.randint(0, 6)):
+                F.add_clause([rng.choice((-1, 1)) * v for v in rng.sample(range(1, nv + 1), rng.randint(0, min(3, nv)))])
+            for j in range(rng.randint(0, 3)):
+                F.header["transformation %d" % rng.randint(1, 12)] = "pre-existing %d" % j
+            out.append(("rnd%d" % t, F))
     return out
 
 
@@ -73,6 +96,10 @@ def transform_records(ck):
     recs = []
     n = 0
     chains = [[kd] for kd in KINDS]
+    if not ck.quick:        # other ranks and constants
+        chains += [[(kd, k, C)] for kd, k0, C0 in KINDS if k0 >= 1 and kd not in ("flip", "shuffle", "ite")
+                   for k in (1, 2, 3) for C in ((0,) if kd in ("xor", "or", "maj", "eq", "neq", "one", "lift")
+                                                else (0, 1, 2, 3)) if (k, C) != (k0, C0)]
     for L in (2, 3):
         for _ in range(8 if ck.quick else 60):
             chains.append([rng.choice(KINDS) for _ in range(L)])
